@@ -317,6 +317,11 @@ class Explorer:
             if n > self.max_states:
                 self.truncated = True
                 break
+            if n % 20000 == 0:
+                import resource
+                if resource.getrusage(resource.RUSAGE_SELF).ru_maxrss > 8 * 1024 * 1024:      # kB: 8 GB
+                    self.truncated = True
+                    break
             res = transfer(bb, st)
             if res is None:
                 continue
